@@ -383,6 +383,10 @@ func (c *Conn) DeadlineSet() bool {
 	return !c.rdl.IsZero() || !c.wdl.IsZero()
 }
 
+// ErrTimeout is an injected fault that looks like an expired deadline
+// (a net.Error whose Timeout method reports true).
+var ErrTimeout error = timeoutErr{}
+
 // ErrInjected is the error used for injected faults.
 var ErrInjected = errors.New("verif: injected transport fault")
 
